@@ -273,3 +273,34 @@ def rule_return_shape(k):
             k.fail("C05.return", kind, "parameters", "kernel parameters are not the problem's tensors in format order")
         if fn.name.name != kind:
             k.fail("C05.return", kind, "name", "kernel function name is not its kind")
+
+
+C_RESERVED = {
+    # C keywords
+    "auto", "break", "case", "char", "const", "continue", "default", "do", "double", "else", "enum", "extern",
+    "float", "for", "goto", "if", "inline", "int", "long", "register", "restrict", "return", "short", "signed",
+    "sizeof", "static", "struct", "switch", "typedef", "union", "unsigned", "void", "volatile", "while",
+    # identifiers the emitted C / the published header / the LLVM module rely on
+    "bool", "true", "false", "malloc", "realloc", "free", "NULL",
+}
+
+
+def rule_reserved_identifiers(k):
+    """C08: no parameter or declared variable of an emitted kernel is a C keyword or an identifier
+    the emitted code itself relies on (the C would not compile / the LLVM module would mis-bind)."""
+    import re
+
+    IR = kir.IR
+    for kind, fn in k.kernels.items():
+        k.instance("C08.reserved-identifiers")
+        names = [p.name.name for p in fn.parameters]
+        for s, _ in kir.simple_statements(fn.body):
+            if isinstance(s, IR.Declaration):
+                names.append(s.name.name)
+            elif isinstance(s, IR.DeclarationAssignment):
+                names.append(s.target.name.name)
+        bad = sorted({n for n in names if n in C_RESERVED or re.fullmatch(r"u?int\d+_t|taco_\w+|TACO_\w+", n)})
+        for n in bad:
+            k.fail("C08.reserved-identifiers", kind, f"identifier {n}", f"user name `{n}` reaches the emitted code unmangled and is reserved there")
+        if not bad:
+            k.ok("C08.reserved-identifiers", len(set(names)))
